@@ -39,11 +39,17 @@ func (c *Conversation) processAKE(msgType byte, msg []byte) (toSend []messageWit
 	case msgTypeDHKey:
 		c.ake.state, toSendSingle, err = c.ake.state.receiveDHKeyMessage(c, msg)
 	case msgTypeRevealSig:
+		_, awaiting := c.ake.state.(authStateAwaitingRevealSig)
 		c.ake.state, toSendSingle, err = c.ake.state.receiveRevealSigMessage(c, msg)
-		toSendExtra, _ = c.maybeRetransmit()
+		if awaiting && err == nil {
+			toSendExtra, _ = c.maybeRetransmit()
+		}
 	case msgTypeSig:
+		_, awaiting := c.ake.state.(authStateAwaitingSig)
 		c.ake.state, toSendSingle, err = c.ake.state.receiveSigMessage(c, msg)
-		toSendExtra, _ = c.maybeRetransmit()
+		if awaiting && err == nil {
+			toSendExtra, _ = c.maybeRetransmit()
+		}
 	default:
 		err = newOtrErrorf("unknown message type 0x%X", msgType)
 	}
